@@ -429,6 +429,15 @@ fn fam_batch(r: &mut Rng) -> Result<(), String> {
     let (tn1, tl1) = (s.tn - u, s.tl - total);
     if r.next() % 2 == 0 && in_dom(tn1 - muldiv(tn1, a4, tl1).unwrap(), tl1 - a4) {
         execute(deps.as_mut(), env_at(due + late + 10), mock_info(USER, &coins(a4, &lst)), ExecuteMsg::LiquidUnstake {}).map_err(|e| format!("LiquidUnstake refused: {e}; {ctx}"))?;
+        {
+            // the repeat unstake opens a request in the NEW pending batch; the request in the submitted batch is untouched
+            let r2 = staking::state::unstake_requests().may_load(&deps.storage, (2, USER.to_string())).unwrap().map(|x| x.amount.u128());
+            let r1 = staking::state::unstake_requests().may_load(&deps.storage, (1, USER.to_string())).unwrap().map(|x| x.amount.u128());
+            let b2 = BATCHES.load(&deps.storage, 2).unwrap().batch_total_liquid_stake.u128();
+            if r2 != Some(a4) || r1 != Some(a1 + a2) || b2 != a4 {
+                return Err(format!("batch total {b2} of the pending batch != sum of its requests: after unstaking {a4} into batch 2 the user's requests are batch 1: {r1:?} (expected {}), batch 2: {r2:?} (expected {a4}); {ctx}", a1 + a2));
+            }
+        }
         let due2 = due + late + 86_400;
         if execute(deps.as_mut(), env_at(due2 - 1), mock_info(USER2, &[]), ExecuteMsg::SubmitBatch {}).is_ok() { return Err(format!("SubmitBatch succeeded one second before the batch period elapsed (second batch, unstake {a4}); {ctx}")); }
         let resp = execute(deps.as_mut(), env_at(due2), mock_info(USER2, &[]), ExecuteMsg::SubmitBatch {}).map_err(|e| format!("SubmitBatch refused at/after the deadline of the second batch ({due2}): {e}; {ctx}"))?;
@@ -928,7 +937,7 @@ const TAGS: &[(&str, &str)] = &[
     ("page", "C17"),
     ("paging", "C17"),
     ("Batches", "C17"),
-    ("UnstakeRequests", "C17"),
+    ("UnstakeRequests", "C17,C05"),
     ("BatchesByIds", "C17"),
 ];
 
